@@ -1658,12 +1658,12 @@ CLAIMS = {
                      "validatePackage, dsl.Validate, outputJson and WriteFileIfNeeded: for every sequence of 2 (3) saves over valid and invalid model contents and every interleaving of the "
                      "editor, debounce-timer firings and in-flight regenerations within the preemption bound, once everything is quiescent the output file equals what a one-shot generateImpl "
                      "produces for the final contents, invalid final contents leave the output untouched, and no regeneration goroutine has crashed. The unguarded overlap of regenerations "
-                     "(a slow one overwriting the output of a newer one) was found this way, confirmed natively against the real watcher, and repaired (fix: 32002f5).",
+                     "(a slow one overwriting the output of a newer one) was found this way, confirmed natively against the real watcher, and repaired (fix: 32002f5). Added (session 5): a package of the closure that cannot be LOADED (import, previous version, import of a previous version; ill-cased namespace or missing import directory; from start-up or from the save that adds the versions block) is repaired by a save and the output converges (defect repaired by 69a8eac).",
                 note="Bounded: 2 saves x 1 preemption (quick), 3 saves x 1 preemption and 2 saves x 2 preemptions (thorough); import scenario 4 saves x 1 preemption (thorough, about 230 000 schedules, ~1 h); single package, JSON target; koanf config sharing and the process cwd across imported "
                      "packages are behind stubs; native confirmation relies on timing (bulky model), not on an imposed schedule."),
     "C08": dict(text="Bounded symbolic execution (gosym) of the complete real Python generator for a two-namespace model under every generateNDJson / has-protocols combination: "
                      "no panic, and the generated package is self-consistent (every own-package module an __init__.py imports was written). Panic-freedom of the type-mapping layers "
-                     "on all type shapes is additionally exercised by the C14 part.",
+                     "on all type shapes is additionally exercised by the C14 part. Added (session 5): the complete real C++ and MATLAB generators on a package family (import shapes x definition kinds x symbolic options): every quoted #include / qualified MATLAB name resolves to a file of the same run, format files iff enabled, CMakeLists read as a script, declaration visible where named, override array header; every class name the generated Python modules evaluate at import time or hand to a UnionSerializer / UnionConverter resolves and no class is defined twice; C++ computed-field accessors return references only to objects that live as long as *this; `yardl init <name>` for a symbolic name: accepted iff the scaffold it writes loads and validates, nothing left behind otherwise; emitted reader / writer methods never hide their parameters with step temporaries. Nine genuine defects found this way were repaired (DESIGN I.9).",
                 note="Only part of C08 is decidable by this technique here: identifier collisions after case conversion go through regexp2 look-behind patterns (no SMT counterpart), "
                      "and 'generated C++ compiles / Python imports' is not a symbolic question (C++ cannot be compiled in this sandbox); the C++ and MATLAB generators' option handling "
                      "is not covered yet. See DESIGN section 7."),
@@ -1671,29 +1671,29 @@ CLAIMS = {
                 text="(pysym) the generated Python protocols.py for every stream/non-stream pattern of length 1..3 (4 thorough), run on symbolic proxies: one-step inductive simulation "
                      "from an arbitrary _state against the declaration-order automaton for an arbitrary API call (write/read/close/__exit__, iterable obtained/consumed/abandoned). "
                      "(gosym) the C++ protocol emitter's state checks for every pattern of 3 (5) steps read back as guarded commands and simulated the same way, plus 256/128-step "
-                     "protocols for the width of the state member. One genuine defect (8-bit state) was repaired (fix: 3cb2501).",
+                     "protocols for the width of the state member. One genuine defect (8-bit state) was repaired (fix: 3cb2501). Added (session 5, gosym): the emitted MATLAB <P>WriterBase.m / <P>ReaderBase.m are read back and simulated one step from a symbolic state_ against the declaration-order automaton for every public method (write / end / read / has / close / copy_to), with state numbering checked up to 1000 steps.",
                 note="Generated C++ is checked at emitter level through a recogniser of today's statement forms, not compiled; MATLAB *Base.m and CopyTo are outside; call histories of "
                      "any length are covered by the inductive step, protocol shapes only up to the stated lengths."),
     "C05": dict(text="Bounded symbolic execution (gosym) of the C++ conversion emitter for accepted integer->integer changes, in both directions: for a symbolic type pair and "
-                     "a symbolic 64-bit value of the source type, the emitted guard throws exactly when the value does not fit the target type (no silent wrap, no spurious error).",
+                     "a symbolic 64-bit value of the source type, the emitted guard throws exactly when the value does not fit the target type (no silent wrap, no spurious error). Added (session 5): floating point -> integer conversions throw iff the value does not fit, for every power of two of either sign (boundary defect at 2^63 / 2^31 repaired by ae5937f); a changed record as a map value is held to the same conversion obligations if a tree accepts it; converted steps named like the methods' own variables (repaired by bf6507e).",
                 note="Emitter level only: generated C++ cannot be compiled or executed here. Float/complex/string conversions, record field add/remove/reorder plans, union/optional "
                      "changes, protocol-step switches and version chains are not covered yet (DESIGN C05)."),
     "C19": dict(engine="gosym+pysym", text="(pysym) the generated Python computed-field methods of a model with +,-,*,/,**, unary minus, nested and parenthesised expressions and size(), evaluated on "
                      "symbolic integer fields over the full range of their types against the exact (C++-semantics) value whenever it is in range of the static type. Two genuine defects were "
                      "repaired (fix: 8cd10c6, 0b84462); integer floor-vs-truncate division is a recorded known finding. Bounded symbolic execution (gosym) of computed-field type inference on `a op b` vs `b op a` for every ordered pair of the 13 numeric primitive types "
-                     "(symbolic, solver-decided) and every operator: verdict and static type are symmetric, `**` on integers is float64, result kind = widest operand kind.",
+                     "(symbolic, solver-decided) and every operator: verdict and static type are symmetric, `**` on integers is float64, result kind = widest operand kind. Added (session 5, gosym): the static type of a referenced computed field does not depend on the switch variables in scope where it is referenced, on declaration order, or on another instantiation of the same generic record; a name denotes its innermost declaration; (pysym) fields of elements of arrays of records (structured numpy arrays, model validated against numpy).",
                 note="Static typing only so far; agreement of the three expression emitters and of host-language operator semantics (e.g. Python // vs C++ /) is a separate part "
                      "(see DESIGN: F6) and nested expressions / switch typing are not covered."),
     "C10": dict(text="Bounded symbolic execution (gosym) of the whole real validation pipeline on a record with every kind of field plus one computed field whose expression ranges "
                      "over every expression form (literals, member access, unary, binary, subscript with 0-2 possibly labelled arguments, the three built-in functions with 0-3 "
                      "arguments, conversions, switch with every pattern kind) applied to every kind of target: dsl.Validate never panics and every error is located. Two panics found "
-                     "this way were repaired (fix: commit 842eeab).",
+                     "this way were repaired (fix: commit 842eeab). Added (session 5): empty latest model / removed protocols (nil-pointer panic repaired by ff3cba9); cross-namespace reference cycles (stack overflow of generate repaired by fefb963); every node of the parsed model, type parameters included, carries the file it was read from.",
                 note="Claimed from the yaml.Node level down (DESIGN I.1c): the byte -> node step (yaml.v3's scanner / parser) is not executed; node trees are bounded in depth (2) and "
                      "fan-out (2) over finite vocabularies; anchors only as aliases of an anchored or enclosing node; process-level time is an instruction budget, memory an allocation-size "
                      "bound. Expression depth 1 (arguments are leaves). Known finding: validation of chains of generic aliases is exponential (DESIGN I.3)."),
     "C09": dict(text="Bounded symbolic execution (gosym) of the whole real validation pipeline on base-model + one rule violation: 16 type-level rules x 10 positions and 21 "
                      "definition-level rules, each in the main and in an imported namespace: validation fails and the error text names the offending file. Two genuine defects found "
-                     "this way were repaired (fix: commits 0de7622, b7cf9f1). Package-level propagation (imports, previous versions) is the C11 part.",
+                     "this way were repaired (fix: commits 0de7622, b7cf9f1). Package-level propagation (imports, previous versions) is the C11 part. Added (session 5): a reference cycle through two namespaces is rejected; the map-key rule holds for keys supplied as type arguments (metamorphic: verdict of the map written out).",
                 note="AST level (after yaml.v3/participle); computed-field typing errors are covered by C19/C10 parts when registered; the rule list is the harness' transcription of docs/*/language.md."),
     "C03": dict(engine="gosym+pysym(+llsym via C01)",
                 text="Portability is decomposed: (1) every backend's emitted serializer denotes the same wire plan (C14 part, gosym); (2) the C++ and Python NDJSON generators take "
@@ -1713,7 +1713,7 @@ CLAIMS = {
                      "with symbolic values: emitted bytes equal the reference wire codec (docs/reference/binary.md), reading them back yields the value and consumes exactly those bytes, "
                      "class invariant preserved, no out-of-object access; buffer sizes 8/12 (quick) up to 32 (thorough). (pysym) the unmodified _binary.py run on symbolic proxies: "
                      "every stream primitive and every serializer class (ints, size, bool, floats, complex, string, date, optional, union, vector, fixed vector, map, stream, enum, record) "
-                     "writes the reference bytes from an arbitrary buffer offset and reads them back. (gosym) C14 part: which kernel each backend uses for each type.",
+                     "writes the reference bytes from an arbitrary buffer offset and reads them back. (gosym) C14 part: which kernel each backend uses for each type. Added (session 5): a 130-case union with the documented varint tag as oracle (Python one-byte tag repaired by d4e8f16); the block layer of stream steps (llsym c17_cc_blocks) decides the contract between ReadBlocksIntoVector's post-state and the generated reader's end-of-stream test.",
                 note="Generated C++ cannot be compiled in this sandbox (no xtensor/date/nlohmann/HDF5), so C++ is covered at kernel level (llsym) + emitter level (C14 gosym) only; "
                      "production buffer size 65536 is covered only through the size-independent inductive step; istream::read/ostream::write follow the libstdc++ contract."),
     "C16": dict(engine="llsym+pysym",
@@ -1733,7 +1733,7 @@ CLAIMS = {
                      "returns the embedded schema verbatim, otherwise throws before consuming bytes beyond the header.",
                 note="std::string stubbed; the schema comparison itself lives in generated code (emitter-level check pending)."),
     "C04": dict(text="Bounded symbolic execution (gosym) of the real validation pipeline and schema writer (Validate, GetProtocolSchema, removeComments, json.go) on a "
-                     "symbolic model family: wire-neutral decorations leave the schema text unchanged; every single wire-affecting edit changes it (lengths and dimensions as 64-bit symbolic values).",
+                     "symbolic model family: wire-neutral decorations leave the schema text unchanged; every single wire-affecting edit changes it (lengths and dimensions as 64-bit symbolic values). Added (session 5): definitions reached only through a structural position (map key / value, array item, fixed vector, union case), only as the base of an enum / flags, or only through a second instantiation of a generic; unions with alias-typed cases in the backend-purity model.",
                 note="One model family (stated in assumptions); the verbatim embedding of the schema string by each backend's emitter and the header writers are checked elsewhere "
                      "(C15/C01 parts) or not yet; encoding/json is a model validated by native replay."),
     "C11": dict(text="Bounded symbolic execution (gosym) of generateImpl/validatePackage/parse*Namespaces/outputJson/WriteFileIfNeeded over all failure placements "
@@ -1742,7 +1742,7 @@ CLAIMS = {
                 note="Leaf calls are stubs under gosym (listed in assumptions) and real in the native replay; partial output when a generator itself fails is out of scope "
                      "(as in the property). One genuine defect (error in an imported package ignored) is triaged in known_findings.json."),
     "C02": dict(text="Bounded symbolic execution (gosym) of the union tag-or-not decision of both NDJSON generators on symbolic unions (2 cases quick, 3 + null thorough): "
-                     "untagged iff the documented JSON kinds are pairwise disjoint; C++ and Python agree. Two genuine defects found this way were repaired (fix: commits).",
+                     "untagged iff the documented JSON kinds are pairwise disjoint; C++ and Python agree. Two genuine defects found this way were repaired (fix: commits). Added (session 5): unions nested through aliases and single-case wrappers in the tagging decision (generator panic repaired by 6de5d05); generic records with a field typed by their type parameter in the C++ record converters.",
                 note="Decides the generator-side mapping only; the _ndjson.py converters themselves are checked by the pysym part when registered; the C++ NDJSON runtime "
                      "(nlohmann-json absent) and JSON text formatting are outside. Kind table trusted."),
     "C18": dict(text="Bounded symbolic execution (gosym) of LoadPackage/collectPackages/GetAllReferencedPackages over all import multigraphs on 3 packages "
@@ -1759,7 +1759,7 @@ CLAIMS = {
                 note="Trusts the head tables (meaning of runtime entry points), the gosym intrinsic models listed in evidence.stubs, and z3. "
                      "Python NDJSON converter structure and HDF5 are outside this check."),
     "C06": dict(text="Bounded symbolic execution (gosym) of compareTypes and the warning/error classifiers on symbolic type pairs: totality, "
-                     "reflexivity on equal-shaped copies, silence implies equal wire plan, symmetry of silence/error, warnings for partial changes.",
+                     "reflexivity on equal-shaped copies, silence implies equal wire plan, symmetry of silence/error, warnings for partial changes. Added (session 5): the class of a leaf change is independent of the optional / vector / fixed-vector wrapper chain above it (metamorphic: class of the bare change); definitions that disappear, down to an empty latest model, give a verdict without panic and mention every removed protocol; an alias retargeted to a record carrying a changed copy of the structure gets the class of the change made in place (one known finding); a changed enum value is any pair of different boundary values over a symbolic base type.",
                 note="Type-level only (no named record/enum definitions, no protocol-level step changes yet); depth-bounded shapes; z3 and intrinsic models trusted."),
 }
 
